@@ -18,7 +18,8 @@
 
    What commit / rebuild_indexes / vacuum do to the frame rows is taken from the properties
    that own them (C01: replay applies the pending records; C42: vacuum keeps every row's
-   status and content; F-C14-1: a forced vector rebuild empties the vector index).
+   status and content; C14: since fix 83a83e8 a vector rebuild re-encodes the entries of the index it can
+   still load -- only a damaged index, which holds the embeddings nowhere else, comes back empty).
    Not modelled: I/O errors, a header whose own magic/version is damaged (HeaderDecodeFailure),
    the legacy (pre-Tantivy) lexical index and the parallel-segments vector catalog, memory
    cards / mesh / sketch tracks, lock contention. *)
@@ -71,7 +72,8 @@ Record afile := mkFile {
   f_time : ixst;
   f_lex : bool;           (* Tantivy segments listed in the TOC *)
   f_vec : ixst;
-  f_nvec : N;             (* vectors in the index once the pending records are applied *)
+  f_nvec : N;             (* embeddings of active frames in the index once the pending records are applied
+                             (a damaged index contributes none: only the pending embeddings) *)
   f_rows : list row }.
 
 Definition with_hdr (f : afile) (ptr h : N) : afile :=
@@ -141,6 +143,10 @@ Definition needs_time (rows : list row) (t : ixst) : bool :=
   match t with IxOk => false | IxBad => true | IxNone => nonempty rows end.
 Definition time_findings (rows : list row) (t : ixst) : list N :=
   match t with IxOk => [] | IxBad => [F_TimeIndexChecksumMismatch] | IxNone => if nonempty rows then [F_TimeIndexMissing] else [] end.
+(* a vector index written afresh by a replay's commit (valid, holding what could be loaded + the new
+   embeddings) / by doctor's rebuild of an index that no longer decodes (nothing to re-encode) *)
+Definition vec_after_replay (v : ixst) : ixst := match v with IxBad => IxOk | x => x end.
+Definition vec_reencoded (v : ixst) : ixst := match v with IxBad => IxNone | x => x end.
 (* inspect_vec_index *)
 Definition vec_bad (v : ixst) : bool := match v with IxBad => true | _ => false end.
 Definition needs_vec (o : opts) (v : ixst) : bool := match v with IxOk => false | IxBad => true | IxNone => o_vec o end.
@@ -204,7 +210,10 @@ Definition commit_replay (f : afile) (ps : list pop) : afile :=
   let moved := existsb is_insert ps in
   let toc' := if moved then f_toc f + 1 else f_toc f in
   mkFile toc' toc' (if moved then f_foot f + 1 else f_foot f) (f_C f + 1) (f_C f + 1) (f_C f + 1) true true true None
-         WClean (f_seq f + N.of_nat (length ps)) IxOk (f_lex f) (f_vec f) (f_nvec f) (replay (f_rows f) ps).
+         WClean (f_seq f + N.of_nat (length ps)) IxOk (f_lex f)
+         (* rebuild_indexes in the replay's commit writes a fresh vector index: entries of the loaded index
+            (none when its bytes are damaged) that belong to active frames + the replayed embeddings *)
+         (vec_after_replay (f_vec f)) (f_nvec f) (replay (f_rows f) ps).
 
 (* result code: 0 opened, 1 InvalidToc/InvalidHeader (doctor then tries the aggressive header repair),
    2 any other error.  The file is returned in every case: open_locked persists the header fix-up of a
@@ -285,20 +294,22 @@ Definition vacuum (m : afile) (base : nat) : afile :=
   mkFile (f_ptr m1) (f_toc m1) (f_foot m1) (f_H m1) (f_S m1) (f_C m1) true true true None
          (f_wal m1) (f_seq m1) (match f_time m1 with IxBad => IxBad | _ => IxOk end) (f_lex m1) (f_vec m1) (f_nvec m1) (f_rows m1).
 
-(* apply_pending_rebuilds: rebuild_indexes(&[], &[]) + reset_wal; a vector rebuild starts from nothing *)
+(* apply_pending_rebuilds: rebuild_indexes(&[], &[]) + reset_wal; since fix 83a83e8 a vector rebuild loads
+   the index first (ensure_vec_index) and re-encodes its entries; an index that does not decode yields nothing *)
 Definition rebuild (m : afile) (t l v : bool) (base : nat) : afile :=
   if t || l || v then
     let m1 := rewrite_toc m base in
     reset_wal (mkFile (f_ptr m1) (f_toc m1) (f_foot m1) (f_H m1) (f_S m1) (f_C m1) true true true None
                       (f_wal m1) (f_seq m1) (if f_ptr m =? f_toc m then IxOk else f_time m1)
-                      (f_lex m1 || l) (if v then IxNone else f_vec m1) (if v then 0 else f_nvec m1) (f_rows m1))
+                      (f_lex m1 || l) (if v then vec_reencoded (f_vec m1) else f_vec m1)
+                      (if v && vec_bad (f_vec m1) then 0 else f_nvec m1) (f_rows m1))
   else m.
 
 (* Memvid::verify(path, deep = true) through open_read_only: needs a valid footer whose TOC verifies *)
 Definition verify (m : afile) : outcome bool :=
   if f_footer m && f_tocbytes m && f_tocdec m && (f_S m =? f_C m) then
+    (* VecIndexDecode always passes: load_vec_index_from_manifest swallows a decode failure (index = None) *)
     Ok (negb (match f_time m with IxBad => true | _ => false end)
-        && negb (match f_vec m with IxBad => true | _ => false end)
         && match f_wal m with WPending ps => negb (nonempty ps) | WCorrupt _ => false | WClean => true end)
   else Err 1.
 
